@@ -113,8 +113,13 @@ class Interp:
         want = stack[-1] if stack else None
         if in_component >= 0 and len(stack) == in_component:
             # inside component code, with no context of its own entered, the current context is
-            # the component's own (internal) context; only its delegation target is specified
+            # the component's own (internal) context; only its delegation target is specified -
+            # and, like any context, its parent is the context that was current when it was created
             ok = cur is not None and getattr(cur, "_context", cur) is want
+            if ok and cur is not want and cur.parent is not want:
+                self.disc("new-context-parent:component-context", f"{where}: the component's own context reports parent {_nm(cur.parent)}; "
+                          f"start_component was called in {_nm(want)}")
+                return
         else:
             ok = cur is want
         self.trace.append(["observe", where, _nm(cur), _nm(want)])
